@@ -298,6 +298,11 @@ pub fn run(ctx: &Ctx) -> Verdict {
     let n2 = ctx.tier.pick(600, 15_000);
     let conc = (2..=8u8, 1..=12u8, any::<u8>()).prop_map(|(threads, per_thread, salt)| ConcurrentCase { threads, per_thread, salt });
     v.subs.push(vcore::run_proptest(ctx, "concurrent", n2, conc, check_concurrent));
+    // errors racing for the shared error list under every interleaving (E3 scheduler)
+    for mut s in super::c10::run_kinds(ctx, &[(2, 1), (2, 2), (3, 1)], &[super::c10::Kind::AllErrors]) {
+        s.name = format!("scheduled-{}", s.name);
+        v.subs.push(s);
+    }
     if ctx.tier == vcore::Tier::Thorough {
         v.subs.push(super::fuzz_campaign(ctx, 1_500_000));
     }
@@ -305,6 +310,9 @@ pub fn run(ctx: &Ctx) -> Verdict {
 }
 
 pub fn replay(sub: &str, case: Value) -> Result<(), String> {
+    if sub.starts_with("scheduled") {
+        return super::c10::replay(sub, case);
+    }
     if sub == "fuzz" {
         let scn: Scenario = serde_json::from_value(case).map_err(|e| format!("HARNESS: bad case: {e}"))?;
         return check(&ThreadedCase { scn, plan: vec![] }).map(|_| ());
